@@ -25,18 +25,18 @@ TEXT = {
          'Closure-taking helpers of TLengthProtocolExt/TOutputProtocolExt and generated size() bodies are not covered.'),
  'C05': ('Complete Kani harnesses on the real macro-generated scalar codecs (bool, int32, int64, uint32, uint64, sint32, sint64, fixed32, sfixed32, float, fixed64, sfixed64, double), full value domain, symbolic tag in 1..2^29-1: bytes == key ++ payload of the protobuf encoding document, encoded_len == bytes written, merge(encode(v)) == v consuming exactly the encoding with arbitrary data following; varint encode/decode/len for all u64.',
          'Loop-free or width-bounded (<= 10 iterations, unwinding assertions on) harnesses over full domains are complete proofs. format! on error paths is stubbed. Strings, bytes, repeated, packed, maps, messages, groups and generated messages are not covered.'),
- 'C06': ('The same harnesses as C05 compare the bytes produced with the encoding prescribed by the declared type (ZigZag for sint32/sint64, little-endian fixed widths, 64-bit sign extension of negative int32, wire type per type) computed by an independent reference written from the protobuf encoding document.',
-         'The generator table that selects a codec per .proto type (where sint32/sint64 are mis-selected) is pilota-build code and is not covered in this revision; packed/unpacked acceptance and map entries are not covered.'),
- 'C07': ('The recursive default skipper is verified by Verus as a generic function over any reader satisfying the binary reader contracts: terminates with the depth argument as measure, depth 0 gives Err, Void/Stop give Err, reported count == bytes consumed == exact size for every fixed-width type and binary, count never exceeds the input. The compact reader inheriting this skipper is recorded as a known finding (G4) with a replayed counterexample.',
-         'Element-by-element exactness of nested containers against a value grammar is not proved; the async skipper and the iterative unchecked skipper are not under contract.'),
- 'C09': ('All sync readers of the three safe protocols are verified with no precondition on buffer content: Verus discharges every panic!, expect/unwrap, index, arithmetic-overflow and dependency panic precondition (Bytes::split_to, Buf::advance, copy_to_slice) in the extracted bodies, and every loop has a decreases clause.',
-         'Async readers, read_string (vec! allocation) and generated decoders are not covered.'),
- 'C10': ('decode_varint (dispatch + slow path loop), decode_key, check_wire_type, WireType::try_from and the DecodeContext recursion budget are verified total by Verus (no panic, consumption 1..=10 bytes on success, u32-key and tag checks); the unsafe unrolled decode_varint_slice is proved by a complete Kani harness on every input of up to 11 bytes (no out-of-bounds read, Ok only for a terminated prefix of <= 10 bytes within u64).',
-         'skip_field, merge_loop, bytes/string/message/group/map merge, wrappers in types.rs and generated merge_field are not decided.'),
+ 'C06': ('Kani: the scalar harnesses of C05 compare the bytes produced with the encoding prescribed by the declared type (ZigZag for sint32/sint64, little-endian fixed widths, 64-bit sign extension of negative int32, wire type per type) computed by an independent reference written from the protobuf encoding document. Verus (unit pbgen): the two match tables of pilota-build that select the codec module per .proto scalar type (lower_ty in the parser, ty_module in the code generator) are extracted as verbatim fragments and proved to select, for all 15 scalar types, the module the language guide prescribes (this found G7, fixed).',
+         'Repeated/map/oneof positions of the generator, map entry layout and generated message bodies are not covered (emitted text). packed+unpacked acceptance only by a bounded harness (thorough tier).'),
+ 'C07': ('The recursive default skipper and the async default skipper are each verified by Verus as a generic function over any reader meeting a reader contract, against a recursive grammar of Thrift binary values (bskip_val: structs, lists, sets, maps nested to the depth limit): Ok(n) <=> the input starts with a well-formed value of that wire type occupying n bytes, and exactly those bytes are consumed; Err <=> it does not; depth 0 => Err; termination with depth as measure. Refinement obligations prove TBinaryProtocol<&mut Bytes> and TAsyncBinaryProtocol<R> (both byte orders) implement those reader contracts with their real bodies. The compact reader inheriting the fixed-width skipper is a known finding (G4) with a replayed counterexample; the missing uuid arm of the async skipper (G5) was found by this proof and is fixed.',
+         'The iterative unchecked skipper (unsafe pointer reads, SmallVec stack) is not under contract. The async skipper over the compact reader is not verified against a compact grammar. "Whatever follows is decoded as if the value had never been there" holds for stateless binary readers by the consumption equality; for the compact reader state it is not decided.'),
+ 'C09': ('All sync and async readers of the three safe protocols, both default skippers and the shared async length-prefixed read are verified with no precondition on buffer content: Verus discharges every panic!, expect/unwrap, index, arithmetic-overflow and dependency panic precondition (Bytes::split_to, Buf::advance, copy_to_slice) in the extracted bodies, every loop has a decreases clause, and every allocation site carries an obligation bounding the request by the bytes available (plus at most 64 KiB for stream readers). Err-side contracts state that an input without a complete value is rejected.',
+         'Generated decoders (container preallocation from the wire count in emitted code) are outside reach: emitted text. Stack depth is bounded by the depth argument of the skippers only; generated recursive decoders are not covered.'),
+ 'C10': ('decode_varint (dispatch + slow path loop), decode_key, check_wire_type, WireType::try_from, the DecodeContext recursion budget and skip_field (rule D18; terminates with the recursion budget as measure, nesting beyond the limit refused) are verified total by Verus (no panic, bounded consumption); the unsafe unrolled decode_varint_slice is proved by a complete Kani harness on every input of up to 11 bytes; decode_varint on non-contiguous buffers by pb_varint_chain.',
+         'merge_loop (FnMut closure), bytes/string/message/group/map merge, wrappers in types.rs and generated merge_field are not decided.'),
  'C11': ('Complete Kani harnesses, one per primitive, on the real unchecked writer (BytesMut variant) and reader: exact-size window between guard bytes, symbolic cursor; bytes written == Thrift binary encoding (the spec the checked writer is verified against), reported length == bytes written == cursor advance, nothing outside the window touched; reader values == binary decoding, cursor advanced by the exact size.',
          'LinkedBytes variant with zero-copy insertion, header readers, length-prefixed readers, get_bytes and the iterative skipper are not under a harness.'),
- 'C12': ('The async readers of the binary, little-endian binary and compact protocols are extracted (rule D8: async fn -> fn, awaited tokio reads as atomic calls with the delivery contract of tokio) and verified by Verus against the same spec functions and the same contract text as the in-memory readers, so both refine one decoding relation: same value on success, Err exactly when the in-memory reader errs, consumption == length of the decoded value (never reads past it).',
-         'The delivery-schedule quantifier is removed by assumption A7 (tokio AsyncReadExt returns the next bytes in order regardless of chunking/Pending), not proved. The async skipper and generated decode_async are not covered. Known finding G8b (allocation of the declared length) is reported on every run.'),
+ 'C12': ('The async readers of the binary, little-endian binary and compact protocols and the async skipper are extracted (rule D8: async fn -> fn, awaited tokio reads as atomic calls with the delivery contract of tokio) and verified by Verus against the same spec functions and the same contract text as the in-memory readers, so both refine one decoding relation: same value on success, Err exactly when the in-memory reader errs, consumption == length of the decoded value (never reads past it). The async and in-memory skippers are verified against the same value grammar.',
+         'The delivery-schedule quantifier is removed by assumption A7 (tokio AsyncReadExt returns the next bytes in order regardless of chunking/Pending), not proved. Generated decode_async is not covered (emitted text).'),
  'C18': ('The scalar harnesses of C05 merge into an arbitrary pre-existing value: the result is the decoded value for every old value (last occurrence wins), for all 13 scalar kinds.',
          'Repeated, map, oneof, embedded-message and unknown-field semantics, and Message::merge, are not decided.'),
 }
